@@ -300,6 +300,12 @@ func main() {
 	for _, n := range names {
 		v, ok := evalName(n)
 		if !ok {
+			// a plain string constant: emitted as s_<name>
+			if bl, isLit := consts[n].expr.(*ast.BasicLit); isLit && bl.Kind == token.STRING {
+				if sv, err := strconv.Unquote(bl.Value); err == nil && !strings.ContainsAny(sv, "\n\r\\\"") {
+					fmt.Fprintf(&cb, "def s_%s : String := \"%s\"\n", n, sv)
+				}
+			}
 			continue
 		}
 		cvals[n] = v
